@@ -170,6 +170,8 @@ type SrvWorld struct {
 	ExtraViol          []*Violation
 	PoolStats          []simrt.PoolStat
 	wuChecked          int
+	manualLanes        bool // lanes are driven by the runner itself (C08 walks), not offered as environment actions
+	c08Rest            []byte
 	FrameSizeViol      *Violation
 	allowedTable       int64
 	AckViol            *Violation
@@ -1041,7 +1043,7 @@ func (w *SrvWorld) EnvActions() []Action {
 	}
 	// lanes
 	for _, l := range w.lanes {
-		if w.laneEnabled(l) {
+		if !w.manualLanes && w.laneEnabled(l) {
 			l := l
 			acts = append(acts, Action{Name: fmt.Sprintf("peer-send lane%d op%d", l.idx, l.next), Run: func() { w.laneSend(l) }, Env: true, Weight: 10})
 		}
